@@ -47,16 +47,16 @@ def oracle(lib, pop, text, order, wd, tag):
     ids = [i["id"] for i in pop["instances"]]
     try:
         probs = []
+        e = farm.drv(lib, ["read", f], cwd=wd, timeout=30)
+        if e["rc"] != 0 or e["json"] is None or e["json"]["read"]["sev"] < 2:
+            # the eager reader itself fails on this conforming file: that is C01's / C08's violation, and there is no
+            # eager result to compare the lazy loader with
+            return None
+        eager = {i["id"]: i for i in e["json"]["instances"]}
         r = farm.drv(lib, ["lazy", f, ",".join(map(str, ids)), ",".join(map(str, order))], cwd=wd, timeout=30)
         if r["rc"] != 0 or r["json"] is None:
             return ["lazy driver died: rc=%s stderr=%s" % (r["rc"], r["err"][-500:])]
         lz = r["json"]
-        e = farm.drv(lib, ["read", f], cwd=wd, timeout=30)
-        if e["rc"] != 0 or e["json"] is None:
-            return ["eager driver died: rc=%s" % e["rc"]]
-        eager = {i["id"]: i for i in e["json"]["instances"]}
-        if e["json"]["read"]["sev"] < 2:
-            return ["(eager reader rejects the conforming file: severity %d - C01's business) %s" % (e["json"]["read"]["sev"], e["err"][-300:])]
         model = {i["id"]: i for i in pop["instances"]}
         # index
         if lz["total"] != len(ids):
@@ -173,6 +173,9 @@ def case(ctx, x):
         sample = {"order": order, "file": text[-900:]}
     ev.case(common.chash([c01.pop_canon(ctx, pop), order]), nt, classes=classes, sample=sample)
     probs = oracle(ctx.lib, pop, text, order, ctx.wd, tag)
+    if probs is None:
+        ev.exclude("eager reader fails on the file (reported by C01/C08), no comparison possible")
+        return
     if probs:
         sig = c01.signature(probs)
         if ctx.known(sig):
@@ -193,7 +196,7 @@ def _strings(vals):
 
 
 def main(tier, seed):
-    n_schemas, n_ex = (12, 150) if tier == "quick" else (60, 400)
+    n_schemas, n_ex = (14, 300) if tier == "quick" else (60, 500)
     cfg = {"max_inst": 10} if tier == "quick" else {"max_inst": 30}
     return farmcheck.run(PROP, "exploration", RULE, tier, seed, n_schemas, n_ex,
                          make_strategy=lambda lib: cases(lib["schema"], cfg), case_fn=case,
